@@ -983,6 +983,13 @@ class AgentSchedulingComponent(rpu.AgentComponent):
                     task['partition'] = td['partition']
                     task['resources'] = {'cpu': td['ranks'] * td['cores_per_rank'],
                                          'gpu': td['ranks'] * td['gpus_per_rank']}
+                    try:
+                        self._change_slot_states(task['slots'], rpc.BUSY)
+                        self._active_cnt += 1
+                    except Exception as e:
+                        self._fail_task(task, e,
+                                        '\n'.join(ru.get_exception_trace()))
+                        continue
                     self.advance(task, rps.AGENT_EXECUTING_PENDING,
                                  publish=True, push=True, fwd=True)
                     continue
